@@ -7,6 +7,7 @@ mod prng {
 }
 mod k28;
 mod k35;
+mod k26;
 mod k27;
 mod fileio;
 mod quiet;
